@@ -31,6 +31,14 @@ func (vc *VC) runeLenTerm(r Term) Term {
 
 func (vc *VC) stdlibModel(name string, c *ssa.CallCommon, args []Val, st *State, reach Term, rt types.Type, pos token.Pos) (Val, bool) {
 	switch name {
+	case "math/bits.Mul64":
+		hi := vc.freshConst("mulhi", "Int")
+		lo := vc.freshConst("mullo", "Int")
+		two64 := "18446744073709551616"
+		vc.addAssume(reach, and(app("<=", "0", hi), app("<", hi, two64), app("<=", "0", lo), app("<", lo, two64),
+			eq(app("+", app("*", hi, two64), lo), app("*", args[0].t, args[1].t))))
+		vc.assume("assumed contract: bits.Mul64(x, y) = (hi, lo) with hi*2^64 + lo == x*y")
+		return Val{tuple: []Val{{t: hi, typ: types.Typ[types.Uint64]}, {t: lo, typ: types.Typ[types.Uint64]}}, typ: rt}, true
 	case "unicode/utf8.RuneLen":
 		vc.assume("assumed contract: utf8.RuneLen = -1 for negative, surrogate and > 0x10FFFF runes, else 1..4 by range")
 		return Val{t: vc.runeLenTerm(args[0].t), typ: rt}, true
